@@ -6,18 +6,18 @@
    2. recognize_step never depends on where the segments were cut                          [recognize_prefix_stable]
       what happens when the request line does not fit the 1024-byte window                 [recognize_full_window_*]
       and a target only ever comes from a complete request line                            [recognize_target_sound]
-   3. consume_head_step: the first CRLFCRLF does not move                                   [consume_step_stable, consume_step_exact]
-   4. the loops and the driver over an arrival history: every history gives the outcome of "everything arrived
-      at once" for HTTP / CONNECT                                                           [handshake_segmentation_independent]
+   3. consume_head_step: leading CR / LF bytes are skipped, the first CRLFCRLF behind them does not move
+                                                                                            [consume_step_stable, consume_step_exact]
+   4. the loops and the driver over an arrival history
       exact targets, answers and consumed counts for well-formed requests                  [plain_http_forwarded_untouched,
                                                                                              connect_yields_exact_target, consume_head_exact]
       refusals and their converse                                                          [bad_target_refused, long_request_line_refused,
                                                                                              refused_opens_no_tunnel, http_tunnel_sound]
-   5. SOCKS5 over FramedRead: exact target and replies under every history; the consumed count is exact when
-      nothing follows the request                                                          [socks5_connect_exact, socks5_handshake_exact]
-      and NOT otherwise                                                                    [socks5_early_data_refuted]
-      every stream, every history: everything but the consumed count is independent        [handshake_independent_modulo_consumed]
-   6. empty lines before CONNECT: a second refuted expectation                             [connect_leading_empty_lines_refuted]
+   5. SOCKS5 (read_message: one byte at a time): exact target, replies and consumed count under every history,
+      whatever follows the request                                                         [socks5_handshake_exact, socks5_connect_exact]
+      EVERY stream, EVERY history: the outcome is that of everything arriving at once      [handshake_segmentation_independent]
+   6. regression sensitivity: the behaviour before the repairs fad5d1a / 32d4108            [v0_socks5_early_data_lost,
+                                                                                             v0_connect_after_empty_lines_forwarded]
    7. concrete requests (vm_compute) *)
 From Coq Require Import NArith List Bool Lia Arith ZArith ZifyBool ZifyN ZifyNat.
 From Coq Require String.
@@ -462,15 +462,51 @@ Proof.
       rewrite (IH e' eq_refl). reflexivity.
 Qed.
 
+(* `span is_crlf w` = the window from `start` on *)
+Definition starts_nonblank (b : bytes) : Prop := match b with x :: _ => is_crlf x = false | [] => False end.
+Lemma span_inv f w : exists pre, w = pre ++ span f w /\ forallb f pre = true /\
+  match span f w with x :: _ => f x = false | [] => True end.
+Proof.
+  induction w as [|x t IH]; cbn [span].
+  - exists []. repeat split.
+  - destruct (f x) eqn:Fx.
+    + destruct IH as (pre & E & Hp & Hs). exists (x :: pre). split; [cbn [app]; rewrite <- E; reflexivity|].
+      split; [cbn [forallb]; rewrite Fx, Hp; reflexivity|exact Hs].
+    + exists []. repeat split. exact Fx.
+Qed.
+Lemma span_app_all f pre b : forallb f pre = true -> span f (pre ++ b) = span f b.
+Proof.
+  induction pre as [|x t IH]; intros H; [reflexivity|]. cbn [forallb] in H. apply andb_true_iff in H. destruct H as [Hx Ht].
+  cbn [app span]. rewrite Hx. exact (IH Ht).
+Qed.
+Lemma span_stop f b : match b with x :: _ => f x = false | [] => True end -> span f b = b.
+Proof. destruct b as [|x t]; [reflexivity|]. intros H. cbn [span]. rewrite H. reflexivity. Qed.
+Lemma span_blank bl b : forallb is_crlf bl = true -> starts_nonblank b -> span is_crlf (bl ++ b) = b.
+Proof. intros Hb Hn. rewrite (span_app_all _ bl b Hb). apply span_stop. destruct b; [contradiction|exact Hn]. Qed.
+Lemma starts_nonblank_app h r : starts_nonblank h -> starts_nonblank (h ++ r).
+Proof. destruct h; [contradiction|intros H; exact H]. Qed.
+Lemma span_app_stop f w q x t : span f w = x :: t -> span f (w ++ q) = (x :: t) ++ q.
+Proof.
+  intros H. destruct (span_inv f w) as (pre & E & Hp & Hs). rewrite H in E, Hs. rewrite E at 1.
+  rewrite <- app_assoc, (span_app_all f pre _ Hp). apply span_stop. exact Hs.
+Qed.
+Lemma span_len f w : lenN (span f w) <= lenN w.
+Proof. destruct (span_inv f w) as (pre & E & _). rewrite E at 2. rewrite lenN_app. lia. Qed.
+Lemma find_sub_CRLFCRLF_nil : find_sub CRLFCRLF [] = None.
+Proof. reflexivity. Qed.
+
 Theorem consume_step_stable w q n : consume_head_step w = CConsume n -> consume_head_step (w ++ q) = CConsume n.
 Proof.
-  unfold consume_head_step. destruct (find_sub CRLFCRLF w) as [e|] eqn:F.
-  - rewrite (find_sub_some_app _ w q e F). intros H; exact H.
-  - destruct ((lenN w =? 0) || (lenN w =? HEAD_WINDOW)); discriminate.
+  unfold consume_head_step. destruct (span is_crlf w) as [|x t] eqn:S.
+  - rewrite find_sub_CRLFCRLF_nil. destruct ((lenN w =? 0) || (lenN w =? HEAD_WINDOW)); discriminate.
+  - destruct (find_sub CRLFCRLF (x :: t)) as [e|] eqn:F.
+    + rewrite (span_app_stop _ w q x t S), (find_sub_some_app _ _ q e F). intros [= <-].
+      pose proof (span_len is_crlf w) as L. rewrite S in L. rewrite !lenN_app. f_equal. lia.
+    + destruct ((lenN w =? 0) || (lenN w =? HEAD_WINDOW)); discriminate.
 Qed.
 Theorem consume_step_fail_inv w : consume_head_step w = CFail -> w = [] \/ lenN w = HEAD_WINDOW.
 Proof.
-  unfold consume_head_step. destruct (find_sub CRLFCRLF w); [discriminate|].
+  unfold consume_head_step. destruct (find_sub CRLFCRLF (span is_crlf w)); [discriminate|].
   destruct (N.eqb_spec (lenN w) 0) as [E|_]; [intros _; left; apply lenN_0_nil; exact E|].
   destruct (N.eqb_spec (lenN w) HEAD_WINDOW) as [E|_]; [intros _; right; exact E|discriminate].
 Qed.
@@ -492,19 +528,40 @@ Proof.
   rewrite (IH eq_refl). reflexivity.
 Qed.
 
-Theorem consume_step_exact head rest : head_form head ->
-  consume_head_step (head ++ CRLFCRLF ++ rest) = CConsume (lenN head + 4).
-Proof. intros H. unfold consume_head_step. rewrite (find_sub_head head rest H), lenN_spec. reflexivity. Qed.
-(* before the terminator is complete the step waits (while the window is neither empty nor full) *)
-Theorem consume_step_waits head w q : head_form head -> w ++ q = head ++ CRLFCRLF -> q <> [] ->
-  w <> [] -> lenN w < HEAD_WINDOW -> consume_head_step w = CWait.
+(* CR / LF bytes in front (the empty lines httparse skips, or any other mix of them), then a head that starts
+   with another byte: exactly the leading bytes, the head and its empty line *)
+Theorem consume_step_exact bl head rest : forallb is_crlf bl = true -> starts_nonblank head -> head_form head ->
+  consume_head_step (bl ++ head ++ CRLFCRLF ++ rest) = CConsume (lenN bl + lenN head + 4).
 Proof.
-  intros H E Hq Hw Hl. unfold consume_head_step.
-  assert (F : find_sub CRLFCRLF w = None).
-  { destruct (snoc_cases q) as [->|(q' & c & ->)]; [contradiction|].
-    assert (E' : w ++ q' = head ++ [13; 10; 13]).
-    { change CRLFCRLF with ([13; 10; 13] ++ [10]) in E. rewrite !app_assoc in E. apply app_inj_tail in E. exact (proj1 E). }
-    apply (find_sub_none_prefix CRLFCRLF w q'). rewrite E'. exact H. }
+  intros Hb Hn H. unfold consume_head_step.
+  rewrite (span_blank bl _ Hb (starts_nonblank_app head _ Hn)).
+  rewrite (find_sub_head head rest H), <- lenN_spec, !lenN_app. f_equal. lia.
+Qed.
+(* before the terminator is complete the step waits (while the window is neither empty nor full) *)
+Theorem consume_step_waits bl head w q : forallb is_crlf bl = true -> starts_nonblank head -> head_form head ->
+  w ++ q = bl ++ head ++ CRLFCRLF -> q <> [] -> w <> [] -> lenN w < HEAD_WINDOW -> consume_head_step w = CWait.
+Proof.
+  intros Hb Hn H E Hq Hw Hl. unfold consume_head_step.
+  assert (F : find_sub CRLFCRLF (span is_crlf w) = None).
+  { destruct (N.le_gt_cases (lenN bl) (lenN w)) as [Hc|Hc].
+    - destruct (app_split_len bl (head ++ CRLFCRLF) w q E Hc) as (w' & -> & E').
+      destruct w' as [|x w'].
+      + rewrite app_nil_r. destruct (span_inv is_crlf bl) as (pre & Eb & _ & Hs).
+        destruct (span is_crlf bl) as [|y t] eqn:S; [reflexivity|]. exfalso.
+        assert (In y bl) by (rewrite Eb; apply in_or_app; right; left; reflexivity).
+        rewrite forallb_forall in Hb. rewrite (Hb y H0) in Hs. discriminate Hs.
+      + assert (Hx : starts_nonblank (x :: w')).
+        { destruct head as [|h0 ht]; [contradiction|]. cbn [app] in E'. injection E' as <- _. exact Hn. }
+        rewrite span_blank by assumption.
+        destruct (snoc_cases q) as [->|(q' & c & ->)]; [contradiction|].
+        assert (E2 : (x :: w') ++ q' = head ++ [13; 10; 13]).
+        { change CRLFCRLF with ([13; 10; 13] ++ [10]) in E'. rewrite !app_assoc in E'. symmetry in E'. apply app_inj_tail in E'. exact (proj1 E'). }
+        apply (find_sub_none_prefix CRLFCRLF _ q'). rewrite E2. exact H.
+    - (* the window ends inside the leading CR / LF bytes *)
+      assert (Hall : forallb is_crlf w = true).
+      { symmetry in E. destruct (app_split_len w q bl (head ++ CRLFCRLF) E ltac:(lia)) as (m & Eb & _).
+        rewrite Eb, forallb_app in Hb. apply andb_true_iff in Hb. exact (proj1 Hb). }
+      rewrite <- (app_nil_r w), (span_app_all _ w [] Hall). reflexivity. }
   rewrite F. pose proof (lenN_pos w Hw).
   destruct (N.eqb_spec (lenN w) 0); [lia|]. destruct (N.eqb_spec (lenN w) HEAD_WINDOW); [lia|]. reflexivity.
 Qed.
@@ -622,7 +679,7 @@ Qed.
 
 (* HTTP and CONNECT: the outcome does not depend on how the stream was cut into segments, nor on when they
    arrived *)
-Theorem handshake_segmentation_independent s local hist :
+Lemma handshake_http_segmentation_independent s local hist :
   is_socks5 s = false -> handshake s local hist = handshake s local [].
 Proof. intros Hs. rewrite !(handshake_http_outcome s local _ Hs). reflexivity. Qed.
 
@@ -674,34 +731,56 @@ Proof.
   unfold http_outcome. rewrite (recognize_request bl m u rest Hb Hm Hu Hl), Hr. reflexivity.
 Qed.
 
-(* consume_request_head, under every arrival history: exactly the head and its empty line *)
-Theorem consume_head_exact head rest pre : head_form head -> lenN head + 4 <= HEAD_WINDOW ->
-  let s := head ++ CRLFCRLF ++ rest in
-  arrivals_ok s pre -> consume_loop s (pre ++ [lenN s]) = CConsume (lenN head + 4).
+(* consume_request_head, under every arrival history: exactly the leading CR / LF bytes, the head and its
+   empty line *)
+Theorem consume_head_exact bl head rest pre : forallb is_crlf bl = true -> starts_nonblank head -> head_form head ->
+  lenN bl + lenN head + 4 <= HEAD_WINDOW ->
+  let s := bl ++ head ++ CRLFCRLF ++ rest in
+  arrivals_ok s pre -> consume_loop s (pre ++ [lenN s]) = CConsume (lenN bl + lenN head + 4).
 Proof.
-  intros Hh Hl s Hpre. rewrite (consume_loop_spec s pre Hpre). unfold s. rewrite app_assoc.
-  destruct (window_fits HEAD_WINDOW (head ++ CRLFCRLF) rest) as [y' ->].
-  - rewrite lenN_app. change (lenN CRLFCRLF) with 4. exact Hl.
-  - rewrite <- app_assoc. apply consume_step_exact. exact Hh.
+  intros Hb Hn Hh Hl s Hpre. rewrite (consume_loop_spec s pre Hpre). unfold s.
+  replace (bl ++ head ++ CRLFCRLF ++ rest) with ((bl ++ head ++ CRLFCRLF) ++ rest) by (rewrite <- !app_assoc; reflexivity).
+  destruct (window_fits HEAD_WINDOW (bl ++ head ++ CRLFCRLF) rest) as [y' ->].
+  - rewrite !lenN_app. change (lenN CRLFCRLF) with 4. lia.
+  - rewrite <- !app_assoc. apply consume_step_exact; assumption.
 Qed.
 
-(* CONNECT: the target named by the authority, the 200 answer, and exactly the request head consumed: what the
-   application sent behind the empty line stays in the stream for the tunnel *)
+Lemma blank_lines_crlf bl : blank_lines bl -> forallb is_crlf bl = true.
+Proof.
+  induction bl as [bl IH] using list_len_ind. intros H. destruct bl as [|x t]; [reflexivity|].
+  cbn [blank_lines] in H. destruct H as [[-> Ht]|[-> Ht]].
+  - cbn [forallb]. rewrite IH; [reflexivity|cbn [length]; lia|exact Ht].
+  - destruct t as [|y t']; [contradiction|]. destruct Ht as [-> Ht].
+    cbn [forallb]. rewrite IH; [reflexivity|cbn [length]; lia|exact Ht].
+Qed.
+Lemma method_starts_nonblank m r : method_form m -> starts_nonblank (m ++ r).
+Proof.
+  intros [Hn Hm]. destruct m as [|x t]; [contradiction|]. cbn [forallb] in Hm. apply andb_true_iff in Hm.
+  destruct (is_token_not_blank x (proj1 Hm)) as [A B]. cbn [app starts_nonblank]. unfold is_crlf. rewrite A, B. reflexivity.
+Qed.
+
+(* CONNECT behind ANY number of empty lines: the target named by the authority, the 200 answer, and exactly
+   the empty lines and the request head consumed: what the application sent behind the head's empty line stays
+   in the stream for the tunnel *)
 Theorem connect_yields_exact_target bl m u h2 rest a local hist :
   blank_lines bl -> method_form m -> target_form u -> lenN (request_line_bytes bl m u) <= RECOGNIZE_WINDOW ->
   recognize_http m u = Ok (PHttps a) ->
-  let head := request_line_bytes bl m u ++ h2 in
-  head_form head -> lenN head + 4 <= HEAD_WINDOW ->
-  handshake (head ++ CRLFCRLF ++ rest) local hist = Tunnel KHttps a REPLY_200 (lenN head + 4).
+  let head := request_line_bytes [] m u ++ h2 in
+  head_form head -> lenN bl + lenN head + 4 <= HEAD_WINDOW ->
+  handshake (bl ++ head ++ CRLFCRLF ++ rest) local hist = Tunnel KHttps a REPLY_200 (lenN bl + lenN head + 4).
 Proof.
   intros Hb Hm Hu Hl Hr head Hh Hhl.
-  assert (Hs : is_socks5 (head ++ CRLFCRLF ++ rest) = false).
-  { unfold head. rewrite <- app_assoc. apply is_socks5_request; assumption. }
+  assert (Es : bl ++ head ++ CRLFCRLF ++ rest = request_line_bytes bl m u ++ h2 ++ CRLFCRLF ++ rest).
+  { unfold head, request_line_bytes. cbn [app]. rewrite <- !app_assoc. reflexivity. }
+  assert (Hs : is_socks5 (bl ++ head ++ CRLFCRLF ++ rest) = false) by (rewrite Es; apply is_socks5_request; assumption).
   rewrite (handshake_http_outcome _ local hist Hs). unfold http_outcome.
-  assert (R : recognize_step (window RECOGNIZE_WINDOW (head ++ CRLFCRLF ++ rest) (lenN (head ++ CRLFCRLF ++ rest))) = DHttps a).
-  { unfold head. rewrite <- app_assoc. rewrite (recognize_request bl m u _ Hb Hm Hu Hl), Hr. reflexivity. }
-  rewrite R. pose proof (consume_head_exact head rest [] Hh Hhl (Forall_nil _)) as C. cbn [app consume_loop] in C.
-  destruct (consume_head_step (window HEAD_WINDOW (head ++ CRLFCRLF ++ rest) (lenN (head ++ CRLFCRLF ++ rest)))) as [n| |];
+  assert (R : recognize_step (window RECOGNIZE_WINDOW (bl ++ head ++ CRLFCRLF ++ rest) (lenN (bl ++ head ++ CRLFCRLF ++ rest))) = DHttps a).
+  { rewrite Es. rewrite (recognize_request bl m u _ Hb Hm Hu Hl), Hr. reflexivity. }
+  rewrite R.
+  assert (Hn : starts_nonblank head).
+  { unfold head, request_line_bytes. cbn [app]. rewrite <- app_assoc. apply method_starts_nonblank. exact Hm. }
+  pose proof (consume_head_exact bl head rest [] (blank_lines_crlf bl Hb) Hn Hh Hhl (Forall_nil _)) as C. cbn [app consume_loop] in C.
+  destruct (consume_head_step (window HEAD_WINDOW (bl ++ head ++ CRLFCRLF ++ rest) (lenN (bl ++ head ++ CRLFCRLF ++ rest)))) as [n| |];
     try discriminate C. injection C as ->. reflexivity.
 Qed.
 
@@ -764,7 +843,7 @@ Qed.
 
 (* the converse, as strong as it gets: a tunnel opened by the HTTP branch names the target of a complete
    request line at the head of the stream; plain HTTP consumes nothing; CONNECT answers 200 and consumes
-   exactly up to the FIRST empty line of the stream *)
+   exactly up to the first empty line behind the leading CR / LF bytes *)
 Lemma find_sub_some_head t : forall h, find_sub CRLFCRLF (h ++ CRLFCRLF ++ t) = Some (length h) -> head_form h.
 Proof.
   unfold head_form. induction h as [|x h IH]; intros H; [reflexivity|].
@@ -787,11 +866,16 @@ Proof.
       destruct (IH e' eq_refl) as (h & t & -> & <-). exists (x :: h), t. split; reflexivity.
 Qed.
 Lemma consume_step_inv w n : consume_head_step w = CConsume n ->
-  exists head t, w = head ++ CRLFCRLF ++ t /\ head_form head /\ n = lenN head + 4.
+  exists bl head t, w = bl ++ head ++ CRLFCRLF ++ t /\ forallb is_crlf bl = true /\ starts_nonblank head /\
+                    head_form head /\ n = lenN bl + lenN head + 4.
 Proof.
-  unfold consume_head_step. destruct (find_sub CRLFCRLF w) as [e|] eqn:F.
-  - intros [= <-]. destruct (find_sub_some_split _ _ _ F) as (h & t & -> & <-). exists h, t.
-    split; [reflexivity|]. split; [exact (find_sub_some_head t h F)|rewrite lenN_spec; reflexivity].
+  unfold consume_head_step. destruct (span_inv is_crlf w) as (bl & Ew & Hb & Hs).
+  destruct (find_sub CRLFCRLF (span is_crlf w)) as [e|] eqn:F.
+  - intros [= <-]. destruct (find_sub_some_split _ _ _ F) as (h & t & Eb & <-). exists bl, h, t.
+    rewrite Eb in Ew, Hs, F.
+    split; [exact Ew|]. split; [exact Hb|]. split; [|split; [exact (find_sub_some_head t h F)|]].
+    + destruct h as [|x h']; [discriminate Hs|exact Hs].
+    + rewrite Ew at 1. rewrite Eb, <- lenN_spec, !lenN_app. lia.
   - destruct ((lenN w =? 0) || (lenN w =? HEAD_WINDOW)); discriminate.
 Qed.
 
@@ -801,7 +885,8 @@ Theorem http_tunnel_sound s local hist k a reply n :
                    lenN (request_line_bytes bl m u) <= RECOGNIZE_WINDOW /\
     ((k = KHttp /\ recognize_http m u = Ok (PHttp a) /\ reply = [] /\ n = 0) \/
      (k = KHttps /\ recognize_http m u = Ok (PHttps a) /\ reply = REPLY_200 /\
-      exists head tl, s = head ++ CRLFCRLF ++ tl /\ head_form head /\ n = lenN head + 4 /\ n <= HEAD_WINDOW)).
+      exists bl' head tl, s = bl' ++ head ++ CRLFCRLF ++ tl /\ forallb is_crlf bl' = true /\ starts_nonblank head /\
+                          head_form head /\ n = lenN bl' + lenN head + 4 /\ n <= HEAD_WINDOW)).
 Proof.
   intros Hs. rewrite (handshake_http_outcome s local hist Hs). unfold http_outcome. intros H.
   set (w := window RECOGNIZE_WINDOW s (lenN s)) in *.
@@ -821,162 +906,132 @@ Proof.
     destruct (consume_head_step (window HEAD_WINDOW s (lenN s))) as [n'| |] eqn:C; try discriminate H.
     injection H as <- <- <- <-.
     exists bl, m, u, r. repeat (split; [assumption|]). right. repeat (split; [reflexivity || assumption|]).
-    destruct (consume_step_inv _ _ C) as (head & t & Ew & Hh & ->).
+    destruct (consume_step_inv _ _ C) as (bl' & head & t & Ew & Hb' & Hn' & Hh & ->).
     destruct (window_is_prefix HEAD_WINDOW s (lenN s)) as [q Eq].
-    exists head, (t ++ q). split; [rewrite Eq, Ew, <- !app_assoc; reflexivity|]. split; [exact Hh|]. split; [reflexivity|].
+    exists bl', head, (t ++ q). split; [rewrite Eq, Ew, <- !app_assoc; reflexivity|].
+    split; [exact Hb'|]. split; [exact Hn'|]. split; [exact Hh|]. split; [reflexivity|].
     assert (L : lenN (window HEAD_WINDOW s (lenN s)) <= HEAD_WINDOW) by (rewrite window_len by lia; lia).
     rewrite Ew, !lenN_app in L. change (lenN CRLFCRLF) with 4 in L. lia.
 Qed.
 
 (* ------------------------------------------------------------------------------------------ *)
-(* 5. SOCKS5 over FramedRead                                                                   *)
+(* 5. SOCKS5: read_message takes one byte at a time                                            *)
 (* ------------------------------------------------------------------------------------------ *)
-Lemma s5_request_loop_unfold s local c r obs : s5_request_loop s local c r obs =
-  match s5_command_request (dropN c (takeN r s)) with
-  | Ok (_, Some (cmd, dst)) => s5_finish local cmd dst r
-  | Ok (_, None) =>
-    match obs with
-    | [] => Refused RSocks S5_METHOD_REPLY
-    | a :: t => s5_request_loop s local c (N.max r (N.min a S5_READ_CAP)) t
-    end
-  | Err _ => Refused RSocks S5_METHOD_REPLY
-  | Panic => Crashed
-  end.
-Proof. destruct obs; reflexivity. Qed.
+Section ReadMessage.
+  Variable A : Type.
+  Variable dec : bytes -> res (bytes * option A).
 
-Section Socks5WellFormed.
-  Variables (ms : list N) (c rsv : N) (a : addr) (tail : bytes) (local : addr).
-  Hypothesis Hms : forallb auth_method_ok ms = true.
-  Hypothesis Hc : command_ok c = true.
-  Hypothesis Hwf : addr_wf a.
-  Hypothesis Hrep : representable a.
-  Let G : bytes := [5; lenN ms] ++ ms.
-  Let R : bytes := [5; c; rsv] ++ s5_encode a.
-  Let s : bytes := G ++ R ++ tail.
-  Hypothesis Hfit : lenN (G ++ R) <= S5_READ_CAP.
+  Lemma s5_read_message_unfold buf unread : s5_read_message dec buf unread =
+    match dec buf with
+    | Ok (buf', Some item) => MItem item buf' unread
+    | Ok (buf', None) => match unread with [] => MEof | x :: t => s5_read_message dec (buf' ++ [x]) t end
+    | Err _ => MErr
+    | Panic => MPanic
+    end.
+  Proof. destruct unread; reflexivity. Qed.
 
-  Lemma s5wf_len : lenN s = lenN G + lenN R + lenN tail.
-  Proof. unfold s. rewrite !lenN_app. lia. Qed.
-  Lemma s5wf_G_pos : 2 <= lenN G.
-  Proof. unfold G. rewrite lenN_app. change (lenN [5; lenN ms]) with 2. lia. Qed.
-
-  (* the buffer of the second decoder when r bytes have been read *)
-  Lemma s5wf_buffer r : lenN G <= r -> dropN (lenN G) (takeN r s) = takeN (r - lenN G) (R ++ tail).
-  Proof. intros H. unfold s. rewrite takeN_app_ge by exact H. apply dropN_app_exact. Qed.
-
-  Lemma s5wf_request_done r obs : lenN (G ++ R) <= r ->
-    s5_request_loop s local (lenN G) r obs = s5_finish local c a r.
+  (* a decoder that waits on every proper prefix of `msg` and decodes `msg` itself: read_message takes exactly
+     `msg` from the stream, whatever follows it *)
+  Lemma s5_read_message_exact msg item :
+    (forall p q, p ++ q = msg -> q <> [] -> dec p = Ok (p, None)) -> dec msg = Ok ([], Some item) ->
+    forall post pre tail, pre ++ post = msg -> s5_read_message dec pre (post ++ tail) = MItem item [] tail.
   Proof.
-    intros H. rewrite lenN_app in H. rewrite s5_request_loop_unfold, s5wf_buffer by lia.
-    rewrite takeN_app_ge by lia. unfold R at 1. rewrite <- app_assoc.
-    rewrite (s5_command_request_roundtrip c rsv a _ Hc Hwf Hrep). reflexivity.
-  Qed.
-  Lemma s5wf_request_waits r : lenN G <= r < lenN (G ++ R) ->
-    s5_command_request (dropN (lenN G) (takeN r s)) = Ok (takeN (r - lenN G) R, None).
-  Proof.
-    intros H. rewrite lenN_app in H. rewrite s5wf_buffer by lia. rewrite takeN_app_le by lia.
-    apply (s5_command_request_waits c rsv a _ (dropN (r - lenN G) R) Hc Hwf Hrep).
-    - apply take_drop.
-    - intros E. pose proof (lenN_dropN (r - lenN G) R) as L. rewrite E, lenN_nil in L. lia.
+    intros Hw Hd. induction post as [|x post IH]; intros pre tail E.
+    - rewrite app_nil_r in E. subst pre. rewrite s5_read_message_unfold, Hd. reflexivity.
+    - rewrite s5_read_message_unfold, (Hw pre (x :: post) E ltac:(discriminate)). cbn [app]. apply IH.
+      rewrite <- app_assoc. exact E.
   Qed.
 
-  Lemma s5wf_request_loop suf : arrivals_ok s suf -> forall r, lenN G <= r <= lenN s ->
-    exists n, lenN (G ++ R) <= n <= lenN s /\
-              s5_request_loop s local (lenN G) r (suf ++ [lenN s]) = s5_finish local c a n.
+  (* conversely: an item comes from decoding the buffer extended by exactly the bytes taken *)
+  Hypothesis Hnone : forall b b', dec b = Ok (b', None) -> b' = b.
+  Lemma s5_read_message_item_inv : forall unread buf item buf' unread',
+    s5_read_message dec buf unread = MItem item buf' unread' ->
+    exists taken, unread = taken ++ unread' /\ dec (buf ++ taken) = Ok (buf', Some item).
   Proof.
-    pose proof s5wf_len as L. assert (LGR : lenN (G ++ R) = lenN G + lenN R) by apply lenN_app.
-    induction suf as [|x suf IH]; intros Hsuf r Hr.
-    - destruct (N.le_gt_cases (lenN (G ++ R)) r) as [Hd|Hw].
-      + exists r. split; [lia|]. apply s5wf_request_done. exact Hd.
-      + rewrite s5_request_loop_unfold, s5wf_request_waits by lia. cbn [app].
-        exists (N.max r (N.min (lenN s) S5_READ_CAP)). split; [lia|]. apply s5wf_request_done. lia.
-    - inversion Hsuf as [|x' suf' Hx Hsuf']; subst.
-      destruct (N.le_gt_cases (lenN (G ++ R)) r) as [Hd|Hw].
-      + exists r. split; [lia|]. apply s5wf_request_done. exact Hd.
-      + rewrite s5_request_loop_unfold, s5wf_request_waits by lia. cbn [app].
-        apply (IH Hsuf'). lia.
+    induction unread as [|x t IH]; intros buf item buf' unread'; rewrite s5_read_message_unfold;
+      destruct (dec buf) as [[b' [it|]]|e|] eqn:D; try discriminate.
+    - intros [= <- <- <-]. exists []. rewrite !app_nil_r. split; [reflexivity|exact D].
+    - intros [= <- <- <-]. exists []. rewrite !app_nil_r. split; [reflexivity|exact D].
+    - rewrite (Hnone _ _ D). intros H. destruct (IH _ _ _ _ H) as (taken & -> & Hd). exists (x :: taken).
+      split; [reflexivity|]. rewrite <- app_assoc in Hd. exact Hd.
   Qed.
+End ReadMessage.
 
-  Lemma s5wf_greeting_waits r : r < lenN G -> s5_initial_request (takeN r s) = Ok (takeN r G, None).
-  Proof.
-    intros H. unfold s. rewrite takeN_app_le by lia.
-    apply (s5_initial_request_waits ms _ (dropN r G)).
-    - apply take_drop.
-    - intros E. pose proof (lenN_dropN r G) as L. rewrite E, lenN_nil in L. lia.
-  Qed.
-  Lemma s5wf_greeting_done r : lenN G <= r -> s5_initial_request (takeN r s) = Ok (takeN (r - lenN G) (R ++ tail), Some ms).
-  Proof.
-    intros H. unfold s. rewrite takeN_app_ge by exact H. unfold G at 1. rewrite <- app_assoc.
-    apply s5_initial_request_roundtrip. exact Hms.
-  Qed.
-
-  Lemma s5wf_greeting_loop suf : arrivals_ok s suf -> forall r, r < lenN G ->
-    exists n, lenN (G ++ R) <= n <= lenN s /\
-              s5_greeting_loop s local r (suf ++ [lenN s]) = s5_finish local c a n.
-  Proof.
-    pose proof s5wf_len as L. assert (LGR : lenN (G ++ R) = lenN G + lenN R) by apply lenN_app.
-    assert (Step : forall r' t, lenN G <= r' <= lenN s ->
-              (exists n, lenN (G ++ R) <= n <= lenN s /\ s5_request_loop s local (lenN G) r' t = s5_finish local c a n) ->
-              exists n, lenN (G ++ R) <= n <= lenN s /\
-                match s5_initial_request (takeN r' s) with
-                | Ok (rest, Some _) => s5_request_loop s local (r' - lenN rest) r' t
-                | Ok (_, None) => s5_greeting_loop s local r' t
-                | Err _ => Refused RSocks []
-                | Panic => Crashed
-                end = s5_finish local c a n).
-    { intros r' t Hr' H. rewrite s5wf_greeting_done by lia.
-      rewrite lenN_takeN by (rewrite lenN_app; lia). replace (r' - (r' - lenN G)) with (lenN G) by lia. exact H. }
-    induction suf as [|x suf IH]; intros Hsuf r Hr.
-    - cbn [app s5_greeting_loop]. apply Step; [lia|].
-      exists (N.max r (N.min (lenN s) S5_READ_CAP)). split; [lia|]. apply s5wf_request_done. lia.
-    - inversion Hsuf as [|x' suf' Hx Hsuf']; subst. cbn [app s5_greeting_loop].
-      destruct (N.le_gt_cases (lenN G) (N.max r (N.min x S5_READ_CAP))) as [Hd|Hw].
-      + apply Step; [lia|]. apply (s5wf_request_loop suf Hsuf'). lia.
-      + rewrite s5wf_greeting_waits by exact Hw. apply (IH Hsuf'). exact Hw.
-  Qed.
-
-  Lemma s5wf_is_socks5 : is_socks5 s = true.
-  Proof. reflexivity. Qed.
-
-  Theorem s5wf_handshake hist :
-    exists n, lenN (G ++ R) <= n <= lenN s /\ handshake s local hist = s5_finish local c a n.
-  Proof.
-    unfold handshake. destruct (observed_shape s hist) as (pre & -> & Hpre).
-    assert (Ed : recognize_step (window RECOGNIZE_WINDOW s (lenN s)) = DSocks5).
-    { apply recognize_socks5_iff. pose proof s5wf_G_pos. pose proof s5wf_len.
-      destruct (window_is_prefix RECOGNIZE_WINDOW s (lenN s)) as [q Eq].
-      pose proof (window_nonempty RECOGNIZE_WINDOW s (lenN s) ltac:(lia) eq_refl) as Hn.
-      pose proof s5wf_is_socks5 as S. rewrite Eq in S. rewrite is_socks5_app in S by exact Hn. exact S. }
-    destruct (recognize_loop_spec s pre Hpre) as [[Ew _]|(_ & suf & Hsuf & ->)].
-    - rewrite Ed in Ew. discriminate Ew.
-    - rewrite Ed. apply (s5wf_greeting_loop suf Hsuf). pose proof s5wf_G_pos. lia.
-  Qed.
-End Socks5WellFormed.
-
-Lemma s5_message_len ms c rsv a : lenN ms <= 255 -> addr_wf a -> representable a ->
-  lenN (([5; lenN ms] ++ ms) ++ [5; c; rsv] ++ s5_encode a) <= 519.
+Lemma s5_initial_request_cons2 v cnt t : s5_initial_request (v :: cnt :: t) =
+  if negb (v =? S5_VERSION) then Err EBadVersion
+  else if lenN t <? cnt then Ok (v :: cnt :: t, None)
+  else if forallb auth_method_ok (takeN cnt t) then Ok (dropN cnt t, Some (takeN cnt t)) else Err EBadAuth.
 Proof.
-  intros Hm Hwf Hrep. rewrite !lenN_app. change (lenN [5; lenN ms]) with 2. change (lenN [5; c; rsv]) with 3.
-  assert (lenN (s5_encode a) <= 259); [|lia].
-  destruct a as [ip p|ip p|h p]; cbn [s5_encode addr_wf representable] in *; rewrite !lenN_app.
-  - change (lenN [1]) with 1. unfold put_u16. rewrite lenN_put_be. lia.
-  - change (lenN [4]) with 1. unfold put_u16. rewrite lenN_put_be. lia.
-  - change (lenN [3; lenN h mod 256]) with 2. unfold put_u16. rewrite lenN_put_be. lia.
+  unfold s5_initial_request. destruct (N.ltb_spec (lenN (v :: cnt :: t)) 2) as [H|_]; [rewrite !lenN_cons in H; lia|].
+  rewrite index_0. cbn [bind]. destruct (negb (v =? S5_VERSION)); [reflexivity|]. rewrite index_1. cbn [bind].
+  rewrite !lenN_cons. destruct (N.ltb_spec (1 + (1 + lenN t)) (2 + cnt)); destruct (N.ltb_spec (lenN t) cnt); try lia; [reflexivity|].
+  rewrite advance_2_cons. cbn [bind]. rewrite split_to_ok by lia. reflexivity.
+Qed.
+Lemma s5_initial_request_none b b' : s5_initial_request b = Ok (b', None) -> b' = b.
+Proof.
+  destruct b as [|v [|cnt t]]; [cbv; intros [= <-]; reflexivity|cbv; intros [= <-]; reflexivity|].
+  rewrite s5_initial_request_cons2. destruct (negb (v =? S5_VERSION)); [discriminate|].
+  destruct (lenN t <? cnt); [intros [= <-]; reflexivity|]. destruct (forallb auth_method_ok (takeN cnt t)); discriminate.
+Qed.
+Lemma s5_command_request_none b b' : s5_command_request b = Ok (b', None) -> b' = b.
+Proof.
+  rewrite command_request_generic. unfold cmd_generic.
+  destruct (lenN b <? 4); [intros [= <-]; reflexivity|].
+  destruct (index b 0) as [v| |]; cbn [bind]; try discriminate. destruct (negb (v =? S5_VERSION)); [discriminate|].
+  destruct (index b 1) as [c| |]; cbn [bind]; try discriminate. destruct (negb (command_ok c)); [discriminate|].
+  destruct (s5_try_decode_at b 3) as [[al|]| |]; cbn [bind]; try discriminate; [|intros [= <-]; reflexivity].
+  destruct (lenN b <? 3 + al); [intros [= <-]; reflexivity|].
+  destruct (advance 3 b) as [r| |]; cbn [bind]; try discriminate.
+  destruct (s5_decode r) as [[ad r']| |]; cbn [bind]; discriminate.
+Qed.
+
+(* the SOCKS5 branch does not look at the arrival history at all *)
+Lemma handshake_socks5 s local hist : is_socks5 s = true -> handshake s local hist = s5_handshake s local.
+Proof.
+  intros Hs. unfold handshake. destruct (observed_shape s hist) as (pre & -> & Hpre).
+  assert (Ed : recognize_step (window RECOGNIZE_WINDOW s (lenN s)) = DSocks5).
+  { apply recognize_socks5_iff. destruct (window_is_prefix RECOGNIZE_WINDOW s (lenN s)) as [q Eq].
+    destruct s as [|v s']; [discriminate Hs|].
+    pose proof (window_nonempty RECOGNIZE_WINDOW (v :: s') (lenN (v :: s')) ltac:(rewrite lenN_cons; lia) eq_refl) as Hn.
+    rewrite Eq in Hs. rewrite is_socks5_app in Hs by exact Hn. exact Hs. }
+  destruct (recognize_loop_spec s pre Hpre) as [[Ew _]|(_ & suf & Hsuf & ->)].
+  - rewrite Ed in Ew. discriminate Ew.
+  - rewrite Ed. reflexivity.
+Qed.
+
+(* EVERY stream, SOCKS5 included, EVERY history: the whole outcome -- kind, target, bytes answered and the number
+   of bytes taken off the stream -- is the outcome of everything arriving at once *)
+Theorem handshake_segmentation_independent s local hist : handshake s local hist = handshake s local [].
+Proof.
+  destruct (is_socks5 s) eqn:Hs.
+  - rewrite !(handshake_socks5 s local _ Hs). reflexivity.
+  - apply handshake_http_segmentation_independent. exact Hs.
 Qed.
 
 (* a well-formed SOCKS5 exchange (greeting offering any methods, request with any of the three commands), with
-   anything the application may have sent behind it: under EVERY arrival history the handshake ends as
-   s5_finish says for the command and the address of the request; FramedRead has taken n bytes off the
-   stream, at least the two messages *)
+   ANYTHING the application may have sent behind it (it need not wait for the reply): under every arrival
+   history the handshake ends as s5_finish says for the command and the address of the request, and exactly
+   the two messages have left the stream: the early data stays for the tunnel *)
 Theorem socks5_handshake_exact ms c rsv a tail local hist :
-  forallb auth_method_ok ms = true -> lenN ms <= 255 -> command_ok c = true -> addr_wf a -> representable a ->
+  forallb auth_method_ok ms = true -> command_ok c = true -> addr_wf a -> representable a ->
   let hs := ([5; lenN ms] ++ ms) ++ [5; c; rsv] ++ s5_encode a in
-  exists n, lenN hs <= n <= lenN (hs ++ tail) /\ handshake (hs ++ tail) local hist = s5_finish local c a n.
+  handshake (hs ++ tail) local hist = s5_finish local c a (lenN hs).
 Proof.
-  intros Hms Hl Hc Hwf Hrep hs.
-  destruct (s5wf_handshake ms c rsv a tail local Hms Hc Hwf Hrep
-              ltac:(pose proof (s5_message_len ms c rsv a Hl Hwf Hrep); unfold S5_READ_CAP; lia) hist) as (n & Hn & H).
-  exists n. unfold hs. rewrite <- !app_assoc in *. split; [exact Hn|exact H].
+  intros Hms Hc Hwf Hrep hs. rewrite handshake_socks5 by reflexivity. unfold s5_handshake, hs.
+  set (G := [5; lenN ms] ++ ms). set (R := [5; c; rsv] ++ s5_encode a).
+  replace ((G ++ R) ++ tail) with (G ++ (R ++ tail)) by (rewrite app_assoc; reflexivity).
+  assert (EG : s5_read_message s5_initial_request [] (G ++ (R ++ tail)) = MItem ms [] (R ++ tail)).
+  { apply (s5_read_message_exact _ s5_initial_request G ms).
+    - intros p q E Hq. exact (s5_initial_request_waits ms p q E Hq).
+    - pose proof (s5_initial_request_roundtrip ms [] Hms) as H. rewrite app_nil_r in H. exact H.
+    - reflexivity. }
+  rewrite EG.
+  assert (ER : s5_read_message s5_command_request [] (R ++ tail) = MItem (c, a) [] tail).
+  { apply (s5_read_message_exact _ s5_command_request R (c, a)).
+    - intros p q E Hq. exact (s5_command_request_waits c rsv a p q Hc Hwf Hrep E Hq).
+    - pose proof (s5_command_request_roundtrip c rsv a [] Hc Hwf Hrep) as H. rewrite app_nil_r in H. exact H.
+    - reflexivity. }
+  rewrite ER. f_equal. rewrite !lenN_app. lia.
 Qed.
 
 Lemma s5_finish_connect local a n : representable a ->
@@ -988,58 +1043,29 @@ Proof.
 Qed.
 
 (* SOCKS5 CONNECT: exactly the requested target; the method selection 05 00 and the success reply carrying the
-   local address; when nothing follows the request exactly the handshake bytes are consumed *)
-Theorem socks5_connect_exact ms rsv a local hist :
-  forallb auth_method_ok ms = true -> lenN ms <= 255 -> addr_wf a -> representable a ->
+   local address; exactly the handshake bytes consumed, whatever follows them *)
+Theorem socks5_connect_exact ms rsv a tail local hist :
+  forallb auth_method_ok ms = true -> addr_wf a -> representable a ->
   let hs := ([5; lenN ms] ++ ms) ++ [5; 1; rsv] ++ s5_encode a in
-  handshake hs local hist = Tunnel KSocks5 a ([5; 0] ++ [5; 0; 0] ++ s5_encode local) (lenN hs).
+  handshake (hs ++ tail) local hist = Tunnel KSocks5 a ([5; 0] ++ [5; 0; 0] ++ s5_encode local) (lenN hs).
 Proof.
-  intros Hms Hl Hwf Hrep hs.
-  destruct (socks5_handshake_exact ms 1 rsv a [] local hist Hms Hl eq_refl Hwf Hrep) as (n & Hn & H).
-  fold hs in Hn, H. rewrite app_nil_r in *. replace n with (lenN hs) in H by lia.
-  rewrite H. apply s5_finish_connect. exact Hrep.
-Qed.
-(* ... and with early data behind the request: still exactly the requested target and the same replies, but
-   the consumed count is only bounded (see socks5_early_data_refuted) *)
-Theorem socks5_connect_target_exact ms rsv a tail local hist :
-  forallb auth_method_ok ms = true -> lenN ms <= 255 -> addr_wf a -> representable a ->
-  let hs := ([5; lenN ms] ++ ms) ++ [5; 1; rsv] ++ s5_encode a in
-  exists n, lenN hs <= n <= lenN (hs ++ tail) /\
-            handshake (hs ++ tail) local hist = Tunnel KSocks5 a ([5; 0] ++ [5; 0; 0] ++ s5_encode local) n.
-Proof.
-  intros Hms Hl Hwf Hrep hs.
-  destruct (socks5_handshake_exact ms 1 rsv a tail local hist Hms Hl eq_refl Hwf Hrep) as (n & Hn & H).
-  exists n. split; [exact Hn|]. fold hs in H. rewrite H. apply s5_finish_connect. exact Hrep.
+  intros Hms Hwf Hrep hs. unfold hs. rewrite (socks5_handshake_exact ms 1 rsv a tail local hist Hms eq_refl Hwf Hrep).
+  apply s5_finish_connect. exact Hrep.
 Qed.
 (* BIND and UDP ASSOCIATE are answered with a failure reply: no tunnel *)
 Theorem socks5_unsupported_refused ms c rsv a tail local hist :
-  forallb auth_method_ok ms = true -> lenN ms <= 255 -> addr_wf a -> representable a -> c = 2 \/ c = 3 ->
+  forallb auth_method_ok ms = true -> addr_wf a -> representable a -> c = 2 \/ c = 3 ->
   handshake ((([5; lenN ms] ++ ms) ++ [5; c; rsv] ++ s5_encode a) ++ tail) local hist
   = Refused RSocks ([5; 0] ++ [5; 1; 0] ++ s5_encode local).
 Proof.
-  intros Hms Hl Hwf Hrep Hc.
+  intros Hms Hwf Hrep Hc.
   assert (Hok : command_ok c = true) by (destruct Hc as [-> | ->]; reflexivity).
-  destruct (socks5_handshake_exact ms c rsv a tail local hist Hms Hl Hok Hwf Hrep) as (n & _ & H).
-  rewrite H. unfold s5_finish. destruct Hc as [-> | ->]; reflexivity.
+  rewrite (socks5_handshake_exact ms c rsv a tail local hist Hms Hok Hwf Hrep).
+  unfold s5_finish. destruct Hc as [-> | ->]; reflexivity.
 Qed.
 
-(* REFUTED for the faithful model: "consumes exactly the handshake bytes" and "the outcome does not depend on
-   the segmentation" do NOT hold for SOCKS5 when the application sends data before it has read the reply.
-   FramedRead reads whatever has arrived; what it read beyond the request is dropped with the reader.
-   Stream: 05 01 00 | 05 01 00 03 03 'a' '.' 'b' 00 50 | "hello".  Arriving at once: 18 bytes consumed
-   ("hello" is lost); the payload arriving after the request: 13 bytes consumed ("hello" reaches the tunnel). *)
-Definition s5_early_stream : bytes := [5; 1; 0] ++ [5; 1; 0; 3; 3; 97; 46; 98; 0; 80] ++ [104; 101; 108; 108; 111].
-Theorem socks5_early_data_refuted :
-  let local := AV4 [127; 0; 0; 1] 1080 in
-  let reply := [5; 0; 5; 0; 0; 1; 127; 0; 0; 1; 4; 56] in
-  handshake s5_early_stream local [] = Tunnel KSocks5 (ADom [97; 46; 98] 80) reply 18 /\
-  handshake s5_early_stream local [13] = Tunnel KSocks5 (ADom [97; 46; 98] 80) reply 13 /\
-  handshake s5_early_stream local [13] <> handshake s5_early_stream local [].
-Proof. vm_compute. split; [reflexivity|]. split; [reflexivity|discriminate]. Qed.
-
-(* whatever the stream: a tunnel opened by the SOCKS5 branch goes to the address of a CONNECT request decoded
-   from the bytes of the stream that follow a decoded greeting; both replies were written; not more than has
-   arrived was consumed *)
+(* whatever the stream: a tunnel opened by the SOCKS5 branch goes to the address of a CONNECT request that stands
+   in the stream right behind a greeting; both replies were written; exactly those two messages were consumed *)
 Lemma s5_finish_tunnel_inv local cmd dst r k a reply n : s5_finish local cmd dst r = Tunnel k a reply n ->
   k = KSocks5 /\ a = dst /\ cmd = 1 /\ reply = S5_METHOD_REPLY ++ s5_command_reply 0 local /\ n = r.
 Proof.
@@ -1050,303 +1076,51 @@ Proof.
   - destruct (lenN h =? 0); [discriminate|]. destruct (host_ok h); [|discriminate].
     intros [= <- <- <- <-]. repeat split.
 Qed.
-Lemma s5_request_loop_tunnel_inv s local c obs : forall r k a reply n,
-  s5_request_loop s local c r obs = Tunnel k a reply n ->
-  k = KSocks5 /\ reply = S5_METHOD_REPLY ++ s5_command_reply 0 local /\ r <= n /\
-  exists rest, s5_command_request (dropN c (takeN n s)) = Ok (rest, Some (1, a)).
-Proof.
-  induction obs as [|x obs IH]; intros r k a reply n; rewrite s5_request_loop_unfold;
-    destruct (s5_command_request (dropN c (takeN r s))) as [[rest [[cmd dst]|]]|e|] eqn:E; try discriminate.
-  - intros H. destruct (s5_finish_tunnel_inv _ _ _ _ _ _ _ _ H) as (-> & -> & -> & -> & ->).
-    repeat split; [lia|]. exists rest. exact E.
-  - intros H. destruct (s5_finish_tunnel_inv _ _ _ _ _ _ _ _ H) as (-> & -> & -> & -> & ->).
-    repeat split; [lia|]. exists rest. exact E.
-  - intros H. destruct (IH _ _ _ _ _ H) as (Hk & Hr & Hn & Hd). repeat split; try assumption. lia.
-Qed.
-Lemma s5_greeting_loop_tunnel_inv s local obs : forall r k a reply n,
-  s5_greeting_loop s local r obs = Tunnel k a reply n ->
-  k = KSocks5 /\ reply = S5_METHOD_REPLY ++ s5_command_reply 0 local /\
-  exists r0 grest ms rest, r0 <= n /\ s5_initial_request (takeN r0 s) = Ok (grest, Some ms) /\
-                           s5_command_request (dropN (r0 - lenN grest) (takeN n s)) = Ok (rest, Some (1, a)).
-Proof.
-  induction obs as [|x obs IH]; intros r k a reply n; cbn [s5_greeting_loop]; [discriminate|].
-  destruct (s5_initial_request (takeN (N.max r (N.min x S5_READ_CAP)) s)) as [[grest [ms|]]|e|] eqn:E; try discriminate.
-  - intros H. destruct (s5_request_loop_tunnel_inv _ _ _ _ _ _ _ _ _ H) as (Hk & Hr & Hn & rest & Hd).
-    split; [exact Hk|]. split; [exact Hr|]. exists (N.max r (N.min x S5_READ_CAP)), grest, ms, rest. repeat split; assumption.
-  - apply IH.
-Qed.
-
-Lemma recognize_loop_suffix s obs d rest : recognize_loop s obs = (d, rest) -> Forall (fun a => a <= lenN s) obs ->
-  Forall (fun a => a <= lenN s) rest.
-Proof.
-  revert d rest. induction obs as [|x obs IH]; intros d rest H F; cbn [recognize_loop] in H.
-  - injection H as <- <-. constructor.
-  - inversion F as [|x' obs' Hx F']; subst.
-    destruct (recognize_step (window RECOGNIZE_WINDOW s x)); try (injection H as <- <-; exact F).
-    exact (IH _ _ H F').
-Qed.
-
 Theorem socks5_tunnel_sound s local hist k a reply n :
   is_socks5 s = true -> handshake s local hist = Tunnel k a reply n ->
   k = KSocks5 /\ reply = [5; 0] ++ [5; 0; 0] ++ s5_encode local /\
-  exists r0 grest ms rest, r0 <= n /\ s5_initial_request (takeN r0 s) = Ok (grest, Some ms) /\
-                           s5_command_request (dropN (r0 - lenN grest) (takeN n s)) = Ok (rest, Some (1, a)).
+  exists g bg ms r br tl, s = g ++ r ++ tl /\ s5_initial_request g = Ok (bg, Some ms) /\
+                          s5_command_request (bg ++ r) = Ok (br, Some (1, a)) /\ n = lenN g + lenN r.
 Proof.
-  intros Hs. unfold handshake. destruct (observed_shape s hist) as (pre & -> & Hpre).
-  assert (Ed : recognize_step (window RECOGNIZE_WINDOW s (lenN s)) = DSocks5).
-  { apply recognize_socks5_iff. destruct (window_is_prefix RECOGNIZE_WINDOW s (lenN s)) as [q Eq].
-    destruct s as [|v s']; [discriminate Hs|].
-    pose proof (window_nonempty RECOGNIZE_WINDOW (v :: s') (lenN (v :: s')) ltac:(rewrite lenN_cons; lia) eq_refl) as Hn.
-    rewrite Eq in Hs. rewrite is_socks5_app in Hs by exact Hn. exact Hs. }
-  destruct (recognize_loop_spec s pre Hpre) as [[Ew _]|(_ & suf & Hsuf & ->)].
-  - rewrite Ed in Ew. discriminate Ew.
-  - rewrite Ed. apply s5_greeting_loop_tunnel_inv.
-Qed.
-
-(* ---- every SOCKS5 stream, well-formed or not: everything but the consumed count is independent of the
-   arrival history ---- *)
-(* the two decoders are prefix-monotone on ALL inputs *)
-Lemma s5_initial_request_cons2 v cnt t : s5_initial_request (v :: cnt :: t) =
-  if negb (v =? S5_VERSION) then Err EBadVersion
-  else if lenN t <? cnt then Ok (v :: cnt :: t, None)
-  else if forallb auth_method_ok (takeN cnt t) then Ok (dropN cnt t, Some (takeN cnt t)) else Err EBadAuth.
-Proof.
-  unfold s5_initial_request. destruct (N.ltb_spec (lenN (v :: cnt :: t)) 2) as [H|_]; [rewrite !lenN_cons in H; lia|].
-  rewrite index_0. cbn [bind]. destruct (negb (v =? S5_VERSION)); [reflexivity|]. rewrite index_1. cbn [bind].
-  rewrite !lenN_cons. destruct (N.ltb_spec (1 + (1 + lenN t)) (2 + cnt)); destruct (N.ltb_spec (lenN t) cnt); try lia; [reflexivity|].
-  rewrite advance_2_cons. cbn [bind]. rewrite split_to_ok by lia. reflexivity.
-Qed.
-Lemma s5_initial_request_done_app p q rest ms : s5_initial_request p = Ok (rest, Some ms) ->
-  s5_initial_request (p ++ q) = Ok (rest ++ q, Some ms).
-Proof.
-  destruct p as [|v [|cnt t]]; [cbv; discriminate|cbv; discriminate|]. cbn [app]. rewrite !s5_initial_request_cons2.
-  destruct (negb (v =? S5_VERSION)); [discriminate|]. rewrite lenN_app.
-  destruct (N.ltb_spec (lenN t) cnt) as [|H]; [discriminate|]. destruct (N.ltb_spec (lenN t + lenN q) cnt); [lia|].
-  rewrite takeN_app_le, dropN_app_le by exact H. destruct (forallb auth_method_ok (takeN cnt t)); [|discriminate].
-  intros [= <- <-]. reflexivity.
-Qed.
-Lemma s5_initial_request_err_app p q e : s5_initial_request p = Err e -> s5_initial_request (p ++ q) = Err e.
-Proof.
-  destruct p as [|v [|cnt t]]; [cbv; discriminate|cbv; discriminate|]. cbn [app]. rewrite !s5_initial_request_cons2.
-  destruct (negb (v =? S5_VERSION)); [intros H; exact H|]. rewrite lenN_app.
-  destruct (N.ltb_spec (lenN t) cnt) as [|H]; [discriminate|]. destruct (N.ltb_spec (lenN t + lenN q) cnt); [lia|].
-  rewrite takeN_app_le by exact H. destruct (forallb auth_method_ok (takeN cnt t)); [discriminate|]. intros E; exact E.
-Qed.
-(* what the greeting decoder leaves is what follows the greeting *)
-Lemma s5_initial_request_rest p rest ms : s5_initial_request p = Ok (rest, Some ms) ->
-  lenN rest <= lenN p /\ dropN (lenN p - lenN rest) p = rest.
-Proof.
-  destruct p as [|v [|cnt t]]; [cbv; discriminate|cbv; discriminate|]. rewrite s5_initial_request_cons2.
-  destruct (negb (v =? S5_VERSION)); [discriminate|]. destruct (N.ltb_spec (lenN t) cnt) as [|H]; [discriminate|].
-  destruct (forallb auth_method_ok (takeN cnt t)); [|discriminate]. intros [= <- _].
-  rewrite !lenN_cons, lenN_dropN. split; [lia|].
-  replace (1 + (1 + lenN t) - (lenN t - cnt)) with (1 + (1 + cnt)) by lia. rewrite !dropN_cons. reflexivity.
-Qed.
-
-Lemma s5_command_request_done_app p q rest x : s5_command_request p = Ok (rest, Some x) ->
-  s5_command_request (p ++ q) = Ok (rest ++ q, Some x).
-Proof.
-  rewrite (command_request_generic p), (command_request_generic (p ++ q)). unfold cmd_generic. destruct p as [|x0 [|x1 [|x2 r]]]; try (cbv; discriminate).
-  cbn [app].
-  destruct (N.ltb_spec (lenN (x0 :: x1 :: x2 :: r)) 4) as [|H4]; [discriminate|].
-  destruct (N.ltb_spec (lenN (x0 :: x1 :: x2 :: r ++ q)) 4) as [H4'|_];
-    [rewrite !lenN_cons, lenN_app in H4'; rewrite !lenN_cons in H4; lia|].
-  rewrite !index_0. cbn [bind]. destruct (negb (x0 =? S5_VERSION)); [discriminate|].
-  rewrite !index_1. cbn [bind]. destruct (negb (command_ok x1)); [discriminate|].
-  rewrite !try_at_3. destruct (s5_try_decode_at r 0) as [[al|]|e'|] eqn:E; cbn [bind]; try discriminate.
-  rewrite (try_at_mono r q 0 _ E) by discriminate. cbn [bind].
-  destruct (N.ltb_spec (lenN (x0 :: x1 :: x2 :: r)) (3 + al)) as [|Hl]; [discriminate|].
-  destruct (N.ltb_spec (lenN (x0 :: x1 :: x2 :: r ++ q)) (3 + al)) as [Hl'|_];
-    [rewrite !lenN_cons, lenN_app in Hl'; rewrite !lenN_cons in Hl; lia|].
-  rewrite !advance_3_cons. cbn [bind].
-  destruct (s5_decode r) as [[ad r']|e'|] eqn:D; cbn [bind]; try discriminate.
-  rewrite (s5_decode_app r q ad r' D). cbn [bind]. intros [= <- <-]. reflexivity.
-Qed.
-Lemma s5_command_request_err_app p q e : s5_command_request p = Err e -> s5_command_request (p ++ q) = Err e.
-Proof.
-  rewrite (command_request_generic p), (command_request_generic (p ++ q)). unfold cmd_generic. destruct p as [|x0 [|x1 [|x2 r]]]; try (cbv; discriminate).
-  cbn [app].
-  destruct (N.ltb_spec (lenN (x0 :: x1 :: x2 :: r)) 4) as [|H4]; [discriminate|].
-  destruct (N.ltb_spec (lenN (x0 :: x1 :: x2 :: r ++ q)) 4) as [H4'|_];
-    [rewrite !lenN_cons, lenN_app in H4'; rewrite !lenN_cons in H4; lia|].
-  rewrite !index_0. cbn [bind]. destruct (negb (x0 =? S5_VERSION)); [intros H; exact H|].
-  rewrite !index_1. cbn [bind]. destruct (negb (command_ok x1)); [intros H; exact H|].
-  rewrite !try_at_3. destruct (s5_try_decode_at r 0) as [[al|]|e'|] eqn:E; cbn [bind]; try discriminate.
-  - destruct (N.ltb_spec (lenN (x0 :: x1 :: x2 :: r)) (3 + al)) as [|Hl]; [discriminate|].
-    rewrite advance_3_cons. cbn [bind]. rewrite !lenN_cons in Hl.
-    destruct (s5_decode_of_need r al E ltac:(lia)) as (a & ->). discriminate.
-  - rewrite (try_at_mono r q 0 _ E) by discriminate. cbn [bind]. intros H; exact H.
-Qed.
-
-(* where the handshake stands on the bytes read so far *)
-Inductive s5_phase := S5WaitG | S5WaitR | S5Final (o : outcome).
-Definition s5_view (local : addr) (b : bytes) : s5_phase :=
-  match s5_initial_request b with
-  | Ok (rest, Some _) =>
-    match s5_command_request rest with
-    | Ok (_, Some (cmd, dst)) => S5Final (s5_finish local cmd dst (lenN b))
-    | Ok (_, None) => S5WaitR
-    | Err _ => S5Final (Refused RSocks S5_METHOD_REPLY)
-    | Panic => S5Final Crashed
-    end
-  | Ok (_, None) => S5WaitG
-  | Err _ => S5Final (Refused RSocks [])
-  | Panic => S5Final Crashed
-  end.
-(* EOF in that phase *)
-Definition s5_eof (ph : s5_phase) : outcome :=
-  match ph with S5WaitG => Refused RSocks [] | S5WaitR => Refused RSocks S5_METHOD_REPLY | S5Final o => o end.
-(* an outcome without its consumed count *)
-Definition forget (o : outcome) : outcome := match o with Tunnel k a r _ => Tunnel k a r 0 | _ => o end.
-
-Lemma forget_s5_finish local cmd dst n : forget (s5_finish local cmd dst n) = s5_finish local cmd dst 0.
-Proof.
-  unfold s5_finish. destruct (negb (cmd =? 1) || match dst with ADom h _ => lenN h =? 0 | _ => false end); [reflexivity|].
-  destruct dst as [ip p|ip p|h p]; try reflexivity. destruct (host_ok h); reflexivity.
-Qed.
-Lemma s5_view_final_app local b q o : s5_view local b = S5Final o ->
-  exists o', s5_view local (b ++ q) = S5Final o' /\ forget o' = forget o.
-Proof.
-  unfold s5_view. destruct (s5_initial_request b) as [[rest [ms|]]|e|] eqn:G.
-  - rewrite (s5_initial_request_done_app b q rest ms G).
-    destruct (s5_command_request rest) as [[rest2 [[cmd dst]|]]|e|] eqn:C.
-    + rewrite (s5_command_request_done_app rest q rest2 _ C). intros [= <-]. eexists. split; [reflexivity|].
-      rewrite !forget_s5_finish. reflexivity.
-    + discriminate.
-    + rewrite (s5_command_request_err_app rest q e C). intros [= <-]. eexists. split; reflexivity.
-    + exfalso. exact (s5_command_request_total rest C).
-  - discriminate.
-  - rewrite (s5_initial_request_err_app b q e G). intros [= <-]. eexists. split; reflexivity.
-  - exfalso. exact (s5_initial_request_total b G).
-Qed.
-
-Lemma takeN_extend n m (l : bytes) : n <= m -> takeN m l = takeN n l ++ dropN n (takeN m l).
-Proof.
-  intros H. rewrite <- (take_drop n (takeN m l)) at 1. f_equal. unfold takeN. rewrite firstn_firstn.
-  replace (Nat.min (N.to_nat n) (N.to_nat m)) with (N.to_nat n) by lia. reflexivity.
-Qed.
-
-(* the length FramedRead has read when the observations `obs` are exhausted *)
-Definition s5_read_end (obs : list N) (r : N) : N := fold_left (fun r a => N.max r (N.min a S5_READ_CAP)) obs r.
-Lemma s5_read_end_ge obs r : r <= s5_read_end obs r.
-Proof. revert r. induction obs as [|a t IH]; intros r; cbn [s5_read_end fold_left]; [lia|]. specialize (IH (N.max r (N.min a S5_READ_CAP))). unfold s5_read_end in IH. lia. Qed.
-Lemma s5_read_end_le L obs r : Forall (fun a => a <= L) obs -> r <= L -> s5_read_end obs r <= L.
-Proof.
-  revert r. induction obs as [|a t IH]; intros r F Hr; cbn [s5_read_end fold_left]; [exact Hr|].
-  inversion F; subst. apply IH; [assumption|lia].
-Qed.
-Lemma s5_read_end_last L suf r : Forall (fun a => a <= L) suf -> r <= N.min L S5_READ_CAP ->
-  s5_read_end (suf ++ [L]) r = N.min L S5_READ_CAP.
-Proof.
-  revert r. induction suf as [|a t IH]; intros r F Hr; cbn [app s5_read_end fold_left].
-  - lia.
-  - inversion F; subst. apply IH; [assumption|lia].
-Qed.
-
-Lemma s5_final_at_end s local r r' o : r <= r' -> s5_view local (takeN r s) = S5Final o ->
-  forget o = forget (s5_eof (s5_view local (takeN r' s))).
-Proof.
-  intros H V. rewrite (takeN_extend r r' s H). destruct (s5_view_final_app local _ (dropN r (takeN r' s)) o V) as (o' & -> & E).
-  symmetry. exact E.
-Qed.
-
-Lemma s5_request_loop_view s local obs : forall r rest ms,
-  Forall (fun a => a <= lenN s) obs -> r <= lenN s ->
-  s5_initial_request (takeN r s) = Ok (rest, Some ms) ->
-  forget (s5_request_loop s local (r - lenN rest) r obs) = forget (s5_eof (s5_view local (takeN (s5_read_end obs r) s))).
-Proof.
-  induction obs as [|a t IH]; intros r rest ms F Hr G.
-  - cbn [s5_read_end fold_left].
-    destruct (s5_initial_request_rest _ _ _ G) as [Hl Hd]. rewrite lenN_takeN in Hl, Hd by exact Hr.
-    rewrite s5_request_loop_unfold, Hd. unfold s5_view. rewrite G.
-    destruct (s5_command_request rest) as [[rest2 [[cmd dst]|]]|e|]; try reflexivity.
-    cbn [s5_eof]. rewrite lenN_takeN by exact Hr. reflexivity.
-  - inversion F as [|a' t' Ha Ft]; subst. cbn [s5_read_end fold_left]. fold (s5_read_end t (N.max r (N.min a S5_READ_CAP))).
-    destruct (s5_initial_request_rest _ _ _ G) as [Hl Hd]. rewrite lenN_takeN in Hl, Hd by exact Hr.
-    set (r' := N.max r (N.min a S5_READ_CAP)). assert (Hr' : r <= r' <= lenN s) by (unfold r'; lia).
-    pose proof (s5_read_end_ge t r') as Hge.
-    rewrite s5_request_loop_unfold, Hd.
-    destruct (s5_command_request rest) as [[rest2 [[cmd dst]|]]|e|] eqn:C.
-    + apply (s5_final_at_end s local r); [lia|]. unfold s5_view. rewrite G, C. rewrite lenN_takeN by exact Hr. reflexivity.
-    + fold r'. pose proof (takeN_extend r r' s (proj1 Hr')) as Ex.
-      pose proof (s5_initial_request_done_app _ (dropN r (takeN r' s)) _ _ G) as G'. rewrite <- Ex in G'.
-      replace (r - lenN rest) with (r' - lenN (rest ++ dropN r (takeN r' s))).
-      * apply (IH r' _ ms Ft (proj2 Hr') G').
-      * rewrite lenN_app, lenN_dropN, lenN_takeN by lia. lia.
-    + apply (s5_final_at_end s local r); [lia|]. unfold s5_view. rewrite G, C. reflexivity.
-    + apply (s5_final_at_end s local r); [lia|]. unfold s5_view. rewrite G, C. reflexivity.
-Qed.
-
-Lemma s5_greeting_loop_view s local obs : forall r,
-  Forall (fun a => a <= lenN s) obs -> r <= lenN s ->
-  forget (s5_greeting_loop s local r obs) = forget (s5_eof (s5_view local (takeN (s5_read_end obs r) s))) \/
-  s5_view local (takeN r s) <> S5WaitG.
-Proof.
-  induction obs as [|a t IH]; intros r F Hr.
-  - cbn [s5_read_end fold_left s5_greeting_loop]. destruct (s5_view local (takeN r s)) eqn:V; [left; reflexivity|right; discriminate|right; discriminate].
-  - inversion F as [|a' t' Ha Ft]; subst. cbn [s5_read_end fold_left s5_greeting_loop]. fold (s5_read_end t (N.max r (N.min a S5_READ_CAP))).
-    set (r' := N.max r (N.min a S5_READ_CAP)). assert (Hr' : r <= r' <= lenN s) by (unfold r'; lia).
-    pose proof (s5_read_end_ge t r') as Hge. left.
-    destruct (s5_initial_request (takeN r' s)) as [[rest [ms|]]|e|] eqn:G.
-    + exact (s5_request_loop_view s local t r' rest ms Ft (proj2 Hr') G).
-    + destruct (IH r' Ft (proj2 Hr')) as [E|E]; [exact E|]. exfalso. apply E. unfold s5_view. rewrite G. reflexivity.
-    + apply (s5_final_at_end s local r'); [lia|]. unfold s5_view. rewrite G. reflexivity.
-    + apply (s5_final_at_end s local r'); [lia|]. unfold s5_view. rewrite G. reflexivity.
-Qed.
-
-Lemma arrivals_ok_le s l : arrivals_ok s l -> Forall (fun a => a <= lenN s) l.
-Proof. apply Forall_impl. intros a H. lia. Qed.
-
-(* SOCKS5, every stream: the outcome up to its consumed count is a function of the stream alone *)
-Theorem socks5_outcome_modulo_consumed s local hist : is_socks5 s = true ->
-  forget (handshake s local hist) = forget (s5_eof (s5_view local (takeN (N.min (lenN s) S5_READ_CAP) s))).
-Proof.
-  intros Hs. unfold handshake. destruct (observed_shape s hist) as (pre & -> & Hpre).
-  assert (Ed : recognize_step (window RECOGNIZE_WINDOW s (lenN s)) = DSocks5).
-  { apply recognize_socks5_iff. destruct (window_is_prefix RECOGNIZE_WINDOW s (lenN s)) as [q Eq].
-    destruct s as [|v s']; [discriminate Hs|].
-    pose proof (window_nonempty RECOGNIZE_WINDOW (v :: s') (lenN (v :: s')) ltac:(rewrite lenN_cons; lia) eq_refl) as Hn.
-    rewrite Eq in Hs. rewrite is_socks5_app in Hs by exact Hn. exact Hs. }
-  destruct (recognize_loop_spec s pre Hpre) as [[Ew _]|(_ & suf & Hsuf & ->)].
-  - rewrite Ed in Ew. discriminate Ew.
-  - rewrite Ed. assert (F : Forall (fun a => a <= lenN s) (suf ++ [lenN s])).
-    { apply Forall_app. split; [exact (arrivals_ok_le s suf Hsuf)|constructor; [lia|constructor]]. }
-    destruct (s5_greeting_loop_view s local (suf ++ [lenN s]) 0 F ltac:(lia)) as [E|E].
-    + rewrite E. rewrite (s5_read_end_last (lenN s) suf 0 (arrivals_ok_le s suf Hsuf)) by lia. reflexivity.
-    + exfalso. apply E. reflexivity.
-Qed.
-
-(* EVERY stream, EVERY history: kind, target and the bytes answered never depend on the segmentation; for HTTP
-   and CONNECT neither does the consumed count (handshake_segmentation_independent) *)
-Theorem handshake_independent_modulo_consumed s local hist :
-  forget (handshake s local hist) = forget (handshake s local []).
-Proof.
-  destruct (is_socks5 s) eqn:Hs.
-  - rewrite !(socks5_outcome_modulo_consumed s local _ Hs). reflexivity.
-  - rewrite (handshake_segmentation_independent s local hist Hs). reflexivity.
-Qed.
-(* in particular a refusal is a refusal under every history, with the same bytes answered *)
-Corollary refusal_independent s local hist why reply :
-  handshake s local [] = Refused why reply -> handshake s local hist = Refused why reply.
-Proof.
-  intros H. pose proof (handshake_independent_modulo_consumed s local hist) as E. rewrite H in E. cbn [forget] in E.
-  destruct (handshake s local hist); cbn [forget] in E; try discriminate E. exact E.
+  intros Hs. rewrite (handshake_socks5 s local hist Hs). unfold s5_handshake.
+  destruct (s5_read_message s5_initial_request [] s) as [ms bg un| | |] eqn:EG; try discriminate.
+  destruct (s5_read_message s5_command_request bg un) as [[cmd dst] br un'| | |] eqn:ER; try discriminate.
+  intros H. destruct (s5_finish_tunnel_inv _ _ _ _ _ _ _ _ H) as (-> & -> & -> & -> & ->).
+  destruct (s5_read_message_item_inv _ _ s5_initial_request_none _ _ _ _ _ EG) as (g & Es & Hg).
+  destruct (s5_read_message_item_inv _ _ s5_command_request_none _ _ _ _ _ ER) as (r & Eu & Hr).
+  split; [reflexivity|]. split; [reflexivity|]. exists g, bg, ms, r, br, un'. cbn [app] in Hg.
+  split; [rewrite Es, Eu; reflexivity|]. split; [exact Hg|]. split; [exact Hr|]. rewrite Es, Eu, !lenN_app. lia.
 Qed.
 
 (* ------------------------------------------------------------------------------------------ *)
-(* 6. a second refuted expectation: empty lines before CONNECT                                 *)
+(* 6. regression sensitivity: the behaviour before the repairs fad5d1a / 32d4108 (handshake_v0) *)
 (* ------------------------------------------------------------------------------------------ *)
-(* httparse skips empty lines before the request line, consume_request_head does not know about them: with
-   TWO of them ("\r\n\r\n") in front of "CONNECT a.b:443 HTTP/1.1\r\n\r\n" the target is recognised, 200 is
-   answered, but only the 4 bytes of the empty lines are consumed: the CONNECT request itself is forwarded into
-   the tunnel as if it were payload.  (One empty line is harmless: connect_yields_exact_target with bl = CRLF.) *)
+(* Stream: 05 01 00 | 05 01 00 03 03 'a' '.' 'b' 00 50 | "hello" (data sent before the reply has been read).
+   Over FramedRead the consumed count depended on the arrival history and "hello" was lost when it arrived with
+   the request; now exactly 13 bytes are consumed under every history. *)
+Definition s5_early_stream : bytes := [5; 1; 0] ++ [5; 1; 0; 3; 3; 97; 46; 98; 0; 80] ++ [104; 101; 108; 108; 111].
+Theorem v0_socks5_early_data_lost :
+  let local := AV4 [127; 0; 0; 1] 1080 in
+  let reply := [5; 0; 5; 0; 0; 1; 127; 0; 0; 1; 4; 56] in
+  handshake_v0 s5_early_stream local [] = Tunnel KSocks5 (ADom [97; 46; 98] 80) reply 18 /\
+  handshake_v0 s5_early_stream local [13] = Tunnel KSocks5 (ADom [97; 46; 98] 80) reply 13 /\
+  forall hist, handshake s5_early_stream local hist = Tunnel KSocks5 (ADom [97; 46; 98] 80) reply 13.
+Proof.
+  cbv zeta. split; [vm_compute; reflexivity|]. split; [vm_compute; reflexivity|].
+  intros hist. rewrite handshake_segmentation_independent. vm_compute. reflexivity.
+Qed.
+(* Two empty lines in front of "CONNECT a.b:443 HTTP/1.1\r\n\r\n" + "hello": consume_request_head stopped at the
+   empty lines (4 bytes) and the CONNECT request itself was forwarded into the tunnel; now the empty lines and
+   the head (4 + 24 + 4 bytes) are consumed and "hello" is what the tunnel gets. *)
 Definition blank_connect_stream : bytes :=
   [13; 10; 13; 10] ++ [67; 79; 78; 78; 69; 67; 84; 32; 97; 46; 98; 58; 52; 52; 51; 32; 72; 84; 84; 80; 47; 49; 46; 49; 13; 10; 13; 10]
   ++ [104; 101; 108; 108; 111].
-Theorem connect_leading_empty_lines_refuted : forall local hist,
-  handshake blank_connect_stream local hist = Tunnel KHttps (ADom [97; 46; 98] 443) REPLY_200 4.
+Theorem v0_connect_after_empty_lines_forwarded : forall local,
+  handshake_v0 blank_connect_stream local [] = Tunnel KHttps (ADom [97; 46; 98] 443) REPLY_200 4 /\
+  forall hist, handshake blank_connect_stream local hist = Tunnel KHttps (ADom [97; 46; 98] 443) REPLY_200 32.
 Proof.
-  intros local hist. rewrite handshake_segmentation_independent by reflexivity. vm_compute. reflexivity.
+  intros local. split; [vm_compute; reflexivity|].
+  intros hist. rewrite handshake_segmentation_independent. vm_compute. reflexivity.
 Qed.
 
 (* ------------------------------------------------------------------------------------------ *)
@@ -1448,17 +1222,18 @@ Proof. vm_compute. repeat split. Qed.
 
 (* the theorems apply to the examples *)
 Example ex_connect_by_theorem : forall hist,
-  handshake ex_connect LOCAL hist = Tunnel KHttps (ADom (bs "example.com") 443) REPLY_200 59.
+  handshake (CRLF ++ CRLF ++ CRLF ++ ex_connect) LOCAL hist = Tunnel KHttps (ADom (bs "example.com") 443) REPLY_200 65.
 Proof.
   intros hist.
-  pose proof (connect_yields_exact_target [] CONNECT (bs "example.com:443")
+  pose proof (connect_yields_exact_target (CRLF ++ CRLF ++ CRLF) CONNECT (bs "example.com:443")
            (bs "HTTP/1.1" ++ CRLF ++ bs "Host: example.com:443") [22; 3; 1; 2; 0] (ADom (bs "example.com") 443) LOCAL hist) as T.
   cbv zeta in T.
-  replace ex_connect with ((request_line_bytes [] CONNECT (bs "example.com:443") ++ bs "HTTP/1.1" ++ CRLF ++ bs "Host: example.com:443")
-                           ++ CRLFCRLF ++ [22; 3; 1; 2; 0]) by (vm_compute; reflexivity).
+  replace (CRLF ++ CRLF ++ CRLF ++ ex_connect)
+    with ((CRLF ++ CRLF ++ CRLF) ++ (request_line_bytes [] CONNECT (bs "example.com:443") ++ bs "HTTP/1.1" ++ CRLF ++ bs "Host: example.com:443")
+          ++ CRLFCRLF ++ [22; 3; 1; 2; 0]) by (vm_compute; reflexivity).
   rewrite T.
   - f_equal.
-  - exact I.
+  - vm_compute. right. repeat split; right; repeat split; right; repeat split.
   - split; [discriminate|reflexivity].
   - split; [discriminate|split; reflexivity].
   - vm_compute. discriminate.
@@ -1466,3 +1241,8 @@ Proof.
   - vm_compute. reflexivity.
   - vm_compute. discriminate.
 Qed.
+(* early data behind a SOCKS5 request stays in the stream: 21 bytes consumed, whatever the history *)
+Example ex_drive_socks_early_data :
+  List.map (handshake (ex_socks ++ bs "GET / HTTP/1.0") LOCAL) [[]; [1; 2; 3; 7]; [21]; [21; 35]]
+  = repeat (Tunnel KSocks5 (ADom (bs "example.com") 443) [5; 0; 5; 0; 0; 1; 127; 0; 0; 1; 4; 56] 21) 4.
+Proof. vm_compute. reflexivity. Qed.
